@@ -184,3 +184,22 @@ def comp_bound_names(expr: ast.AST) -> Dict[str, ast.AST]:
                 if isinstance(sub, ast.Name):
                     out[sub.id] = n.iter
     return out
+
+
+def need_locals(fn: ast.AST, *names: str, where: str = "") -> None:
+    """Anchor guard for rules whose patterns mention local variable names of
+    the analysed function.  If one of the names is no longer bound or read in
+    the function (a rename / restructuring), the rule cannot recognise its
+    anchor: the run ends as ANALYSIS-ERROR (exit 2), never as a VIOLATION."""
+    from ..model import AnchorError
+
+    present = set()
+    for n in ast.walk(fn):
+        if isinstance(n, ast.Name):
+            present.add(n.id)
+        elif isinstance(n, ast.arg):
+            present.add(n.arg)
+    missing = [x for x in names if x not in present]
+    if missing:
+        fname = getattr(fn, "name", "?")
+        raise AnchorError(f"{where or fname}: local name(s) {missing} the rule is anchored on are gone (renamed or restructured)")
